@@ -25,28 +25,27 @@ theorem getArch_keysSame_or (w : WM) (m : Mask) (sh : Shared) :
   have := getArch_sameTable w m sh
   exact ⟨this.deps, this.pool⟩
 
-/-- the invariant after `getArch m sh` followed by key-preserving steps ending with `e` owning a row -/
-theorem moved_inv {w : WM} {iss : List Handle} (hi : Inv ⟨w, iss⟩) {e : Handle} (hv : w.isValid e = true)
-    {m : Mask} {sh : Shared} (hshin : SharedIn w.pool sh) {w' : WM} {ti : Nat} {vals : List Val}
-    (hm : Moved w w' e ti vals) (hks : KeysSame (w.getArch m sh).1 w') :
+/-- the invariant after key-preserving steps from a state `w0` (whose descriptors are pooled) ending with `e` owning a row -/
+theorem moved_inv' {w : WM} {iss : List Handle} (hi : Inv ⟨w, iss⟩) {e : Handle} (hv : w.isValid e = true)
+    {w0 : WM} (h0 : AllKeys (fun _ s => SharedIn w.pool s) w0) {w' : WM} {ti : Nat} {vals : List Val}
+    (hm : Moved w w' e ti vals) (hks : KeysSame w0 w') :
     Inv ⟨w', iss⟩ := by
   have hsame := hm.same
   have hpool : w'.pool = w.pool := hsame.pool
   have hdeps : w'.deps = w.deps := hsame.deps
   refine inv_entity (c := ⟨w, iss⟩) hi hm.step (SameTable.tab hsame) (liveInv_owns hm.step hi.rows hi.live (hm.owns hv))
-    (SameTable.poolInv hsame hi.pool) (by rw [hpool]; exact PoolExt.refl _) ?_ ?_ hdeps hsame.buffers hsame.marked
+    (SameTable.poolInv hsame hi.pool) (by rw [hpool]; exact PoolExt.refl _) ?_ hdeps hsame.buffers hsame.marked
     hsame.nthreads
-  · -- shared descriptors pooled
-    have h1 : AllKeys (fun _ s => SharedIn w.pool s) (w.getArch m sh).1 :=
-      AllKeys.getArch (P := fun _ s => SharedIn w.pool s) (w := w) hi.shared m sh hshin
-    have h2 := h1.keysSame hks
-    show AllKeys (fun _ s => SharedIn w'.pool s) w'
-    rw [hpool]; exact h2
-  · have h1 : AllKeys (fun mk _ => ClosedUnder w.deps mk) (w.getArch m sh).1 :=
-      AllKeys.getArch (P := fun mk _ => ClosedUnder w.deps mk) (w := w) hi.closed m sh (closedMask_closed hi.depsB m)
-    have h2 := h1.keysSame hks
-    show AllKeys (fun mk _ => ClosedUnder w'.deps mk) w'
-    rw [hdeps]; exact h2
+  have h2 := h0.keysSame hks
+  show AllKeys (fun _ s => SharedIn w'.pool s) w'
+  rw [hpool]; exact h2
+
+/-- the invariant after `getArch m sh` followed by key-preserving steps ending with `e` owning a row -/
+theorem moved_inv {w : WM} {iss : List Handle} (hi : Inv ⟨w, iss⟩) {e : Handle} (hv : w.isValid e = true)
+    {m : Mask} {sh : Shared} (hshin : SharedIn w.pool sh) {w' : WM} {ti : Nat} {vals : List Val}
+    (hm : Moved w w' e ti vals) (hks : KeysSame (w.getArch m sh).1 w') :
+    Inv ⟨w', iss⟩ :=
+  moved_inv' hi hv (AllKeys.getArch (P := fun _ s => SharedIn w.pool s) (w := w) hi.shared m sh hshin) hm hks
 
 /-- the relation after such a move: the spec record of `e`'s ordinal becomes `x` -/
 theorem moved_rel {w : WM} {iss : List Handle} {s : WS} (hi : Inv ⟨w, iss⟩) (hr : Rel ⟨w, iss⟩ s) {e : Handle} {k : Nat}
